@@ -88,7 +88,7 @@ theorem display_cont (P : Params) (hP : ParamsOk P) (H W : Nat) (s : Surface) (h
     rw [d2 hno] at h
     obtain ⟨ch, hk, hw⟩ := dispN_cont P _ h
     simp only [normR] at hk
-    cases hsh : shadowed P s r c
+    cases hsh : shadowedRaw P s r c
     · exfalso
       simp only [hsh, Bool.false_eq_true, if_false] at hk
       have hk' : (s r c).kind = .chr ch := by
@@ -97,9 +97,9 @@ theorem display_cont (P : Params) (hP : ParamsOk P) (H W : Nat) (s : Surface) (h
       obtain ⟨w1, _⟩ := hs
       rcases w1 r c ch hr hc hk' with h' | h' <;> omega
     · cases c with
-      | zero => simp [shadowed] at hsh
+      | zero => simp [shadowedRaw] at hsh
       | succ c' =>
-        simp only [shadowed, Bool.and_eq_true] at hsh
+        simp only [shadowedRaw, Bool.and_eq_true] at hsh
         exact ⟨c', rfl, hsh.1⟩
 
 /-- where the specification shows a wide glyph, the surface has a wide character -/
@@ -119,7 +119,7 @@ theorem display_wide (P : Params) (hP : ParamsOk P) (H W : Nat) (s : Surface) (h
     rw [d2 hno] at h
     have := dispN_wide P _ h
     simp only [normR] at this
-    cases hsh : shadowed P s r c
+    cases hsh : shadowedRaw P s r c
     · simpa [hsh, isWide_rasterise] using this
     · simp [hsh, isWide, nulCell, hP.nul] at this
 
